@@ -361,6 +361,9 @@ func (ex *Exec) specCall(sc *Scope, e *ast.CallExpr) Val {
 		case Str:
 			return Int{smt.App("slen", v.T)}
 		}
+		if op, ok := arg(0).(Opaque); ok {
+			specErr(e, "len of a value that is not modelled (%s)", op.Why)
+		}
 		specErr(e, "len of %T", arg(0))
 	case "old":
 		if sc.Old == nil {
